@@ -3,11 +3,13 @@
 package fwsim
 
 import (
+	"errors"
 	"sync"
 
 	"github.com/named-data/ndnd/fw/core"
 	"github.com/named-data/ndnd/fw/defn"
 	"github.com/named-data/ndnd/fw/dispatch"
+	"github.com/named-data/ndnd/fw/face"
 	fwfw "github.com/named-data/ndnd/fw/fw"
 	"github.com/named-data/ndnd/fw/table"
 	enc "github.com/named-data/ndnd/std/encoding"
@@ -74,6 +76,9 @@ type Sim struct {
 	Step  int
 	Sends []Send
 	Fib   table.FibStrategy
+	// ingress is a real NDNLP link service (never started, no goroutines): harness packets enter
+	// through its frame decoder and dispatch code, exactly as frames from a transport do
+	ingress *face.NDNLPLinkService
 }
 
 // Options configure a fresh forwarder.
@@ -129,7 +134,73 @@ func New(o Options) *Sim {
 		go func() { <-fwfw.VerifPitCs(s.T).UpdateTimer() }()
 	}
 	core.ShouldQuit = false
+	opts := face.MakeNDNLPLinkServiceOptions()
+	opts.IsIncomingFaceIndicationEnabled = true
+	opts.IsConsumerControlledForwardingEnabled = true
+	s.ingress = face.MakeNDNLPLinkService(face.NewVerifTransport(defn.NonLocal, defn.PointToPoint, defn.MaxNDNPacketSize), opts)
 	return s
+}
+
+// ErrIngressDropped: the link service did not queue the frame for the forwarding thread.
+var ErrIngressDropped = errors.New("link service dropped the frame")
+
+// Ingest hands one network-layer packet (optionally with the link-protocol headers PitToken and
+// NextHopFaceId) to the real link-service receive path and returns the packet it queued for the
+// forwarding thread, re-attributed to the simulated face inFace.
+func (s *Sim) Ingest(wire []byte, inFace uint64, token []byte, nextHop *uint64) (*defn.Pkt, error) {
+	frame := append([]byte{}, wire...)
+	if len(token) > 0 || nextHop != nil {
+		var hdr []byte
+		if len(token) > 0 {
+			hdr = append(hdr, tlv(0x62, token)...)
+		}
+		if nextHop != nil {
+			hdr = append(hdr, tlv(0x0330, nat(*nextHop))...)
+		}
+		frame = tlv(0x64, append(hdr, tlv(0x50, wire)...))
+	}
+	// drain anything left over (nothing should be)
+	for {
+		if _, _, ok := fwfw.VerifDequeue(s.T); !ok {
+			break
+		}
+	}
+	face.VerifRecv(s.ingress, frame)
+	p, _, ok := fwfw.VerifDequeue(s.T)
+	if !ok {
+		return nil, ErrIngressDropped
+	}
+	id := inFace
+	p.IncomingFaceID = &id
+	return p, nil
+}
+
+func varnum(b []byte, v uint64) []byte {
+	switch {
+	case v <= 0xfc:
+		return append(b, byte(v))
+	case v <= 0xffff:
+		return append(b, 0xfd, byte(v>>8), byte(v))
+	case v <= 0xffffffff:
+		return append(b, 0xfe, byte(v>>24), byte(v>>16), byte(v>>8), byte(v))
+	default:
+		return append(b, 0xff, byte(v>>56), byte(v>>48), byte(v>>40), byte(v>>32), byte(v>>24), byte(v>>16), byte(v>>8), byte(v))
+	}
+}
+
+func tlv(t uint64, v []byte) []byte { return append(varnum(varnum(nil, t), uint64(len(v))), v...) }
+
+func nat(v uint64) []byte {
+	switch {
+	case v <= 0xff:
+		return []byte{byte(v)}
+	case v <= 0xffff:
+		return []byte{byte(v >> 8), byte(v)}
+	case v <= 0xffffffff:
+		return []byte{byte(v >> 24), byte(v >> 16), byte(v >> 8), byte(v)}
+	default:
+		return []byte{byte(v >> 56), byte(v >> 48), byte(v >> 40), byte(v >> 32), byte(v >> 24), byte(v >> 16), byte(v >> 8), byte(v)}
+	}
 }
 
 // AddFace registers a recording face.
